@@ -527,16 +527,16 @@ theorem nonsym_dynamic_vectors_right {R : Type} [CommRing R] (n : Nat) (A : Nat 
 lengths, running-maximum updates and result selection; `orthoComp` with the translated branch condition, normalising
 2-vector and components; `eig1` with the translated reduced matrix and the four translated normalisation sequences
 and result coefficients; the eigenvector assembly with the translated indices of both
-branches of `if (r >= 0)`; the whole 3x3 eigenvector routine built from them — coincide, for every scalar type and all
-arguments, with the hand-written control flow the other theorems speak about.  The line-protocol driver runs the
-table-driven ones. -/
-theorem ev3_control_translated {K : Type} [Add K] [Sub K] [Mul K] [Div K] [Neg K] [NatCast K] [LT K] [LE K]
-    [DecidableLT K] [DecidableLE K] (sqrt acos cos : K → K) (pi eps : K) :
-    (∀ (A : M3 K) (ev : K), eig0T sqrt A ev = eig0 sqrt A ev) ∧
-    (∀ e : V3 K, orthoCompT sqrt e = orthoComp sqrt e) ∧
-    (∀ (A : M3 K) (e0 : V3 K) (ev1 : K), eig1T sqrt A e0 ev1 = eig1 sqrt A e0 ev1) ∧
-    (∀ (S : M3 K) (l : K × K × K) (r : K), trigVectorsT sqrt S l r = trigVectors sqrt S l r) ∧
-    (∀ A : M3 K, eigenValuesVectors3dT sqrt acos cos pi eps A = eigenValuesVectors3d sqrt acos cos pi eps A) :=
+branches of `if (r >= 0)`; the whole 3x3 eigenvector routine built from them — coincide over ℝ, for arbitrary elementary
+functions and all arguments, with the hand-written control flow the other theorems speak about.  Translated
+expressions are compared up to ring identities (commuted factors, re-associated sums, also inside `sqrt`), translated
+index tables by evaluation.  The line-protocol driver runs the table-driven definitions. -/
+theorem ev3_control_translated (sqrt acos cos : ℝ → ℝ) (pi eps : ℝ) :
+    (∀ (A : M3 ℝ) (ev : ℝ), eig0T sqrt A ev = eig0 sqrt A ev) ∧
+    (∀ e : V3 ℝ, orthoCompT sqrt e = orthoComp sqrt e) ∧
+    (∀ (A : M3 ℝ) (e0 : V3 ℝ) (ev1 : ℝ), eig1T sqrt A e0 ev1 = eig1 sqrt A e0 ev1) ∧
+    (∀ (S : M3 ℝ) (l : ℝ × ℝ × ℝ) (r : ℝ), trigVectorsT sqrt S l r = trigVectors sqrt S l r) ∧
+    (∀ A : M3 ℝ, eigenValuesVectors3dT sqrt acos cos pi eps A = eigenValuesVectors3d sqrt acos cos pi eps A) :=
   ⟨eig0T_eq sqrt, orthoCompT_eq sqrt, eig1T_eq sqrt, trigVectorsT_eq sqrt, eigenValuesVectors3dT_eq sqrt acos cos pi eps⟩
 
 /-- the tables are not degenerate: on the integers (identity as "square root") the table-driven `eig0` of
